@@ -59,6 +59,8 @@ def main(argv=None):
     t0 = time.time()
     variants = [0, 1, 2, 3] if (args.tier == 'thorough' and getattr(_MOD, 'ALL_VARIANTS_IN_THOROUGH', True)) \
         else [variant]
+    if args.tier == 'thorough' and getattr(_MOD, 'THOROUGH_VARIANTS', None):
+        variants = [(variant + i) % 4 for i in range(_MOD.THOROUGH_VARIANTS)]
     units = []
     for v in variants:
         units += _MOD.units(args.tier, v)
